@@ -188,6 +188,22 @@ Cfgs ==
    allow2 |-> [alphabet |-> Ch({"a", " ", NL, "x"}), errpat |-> "anynl",
               terms |-> <<T(Lit(<<"a">>), {1})>>,
               modes |-> <<Mode(FALSE, FALSE, <<>>, <<>>, TRUE, {}, {})>>],
+   \* %allow_unmatched in one of two scanner states only ('o' enters state 2, 'c' returns)
+   allowst |-> [alphabet |-> Ch({"a", "o", "c", "x", " "}), errpat |-> "any",
+              terms |-> <<T(Lit(<<"a">>), {1, 2}), T(Lit(<<"o">>), {1}), T(Lit(<<"c">>), {2})>>,
+              modes |-> <<Mode(TRUE, TRUE, <<>>, <<>>, FALSE, {}, {[ty |-> 6, act |-> "enter", to |-> 2]}),
+                          Mode(TRUE, TRUE, <<>>, <<>>, TRUE, {}, {[ty |-> 7, act |-> "enter", to |-> 1]})>>],
+   allowst2 |-> [alphabet |-> Ch({"a", "o", "c", "x", " "}), errpat |-> "any",
+              terms |-> <<T(Lit(<<"a">>), {1, 2}), T(Lit(<<"o">>), {1}), T(Lit(<<"c">>), {2})>>,
+              modes |-> <<Mode(TRUE, TRUE, <<>>, <<>>, TRUE, {}, {[ty |-> 6, act |-> "enter", to |-> 2]}),
+                          Mode(TRUE, TRUE, <<>>, <<>>, FALSE, {}, {[ty |-> 7, act |-> "enter", to |-> 1]})>>],
+   \* two line comment styles / two block comment styles in one state
+   lc2   |-> [alphabet |-> {<<"/", "/">>, <<"#">>, <<"a">>, <<NL>>, <<" ">>}, errpat |-> "any",
+              terms |-> <<T(Lit(<<"a">>), {1})>>,
+              modes |-> <<Mode(TRUE, TRUE, <<<<"/", "/">>, <<"#">>>>, <<>>, FALSE, {}, {})>>],
+   bc2   |-> [alphabet |-> {<<"(", "*">>, <<"*", ")">>, <<"{", "-">>, <<"-", "}">>, <<"a">>}, errpat |-> "any",
+              terms |-> <<T(Lit(<<"a">>), {1})>>,
+              modes |-> <<Mode(TRUE, TRUE, <<>>, << <<<<"(", "*">>, <<"*", ")">>>>, <<<<"{", "-">>, <<"-", "}">>>> >>, FALSE, {}, {})>>],
    utf   |-> [alphabet |-> Ch({"a", "<e>", "<u>", NL, CR}), errpat |-> "anynl",
               terms |-> <<T(Lit(<<"a">>), {1}), T(Lit(<<"<e>">>), {1})>>,
               modes |-> <<Plain>>]]
